@@ -213,6 +213,9 @@ mod traits;
 mod uint;
 mod wrapping;
 
+#[cfg(crypto_bigint_verif)]
+pub mod verif_hooks;
+
 /// Import prelude for this crate: includes important traits.
 pub mod prelude {
     #[cfg(feature = "hybrid-array")]
